@@ -196,27 +196,29 @@ def part1(run):
     n = max(1, len(uniq) // (env.NPROC * 2))
     chunks = [uniq[i:i + n] for i in range(0, len(uniq), n)]
     res = [r for part in pmap(_spellings, chunks) for r in part]
-    fails = {}      # (fam, form) -> list of witnesses
-    classes = {}    # fam -> cls -> set(str)
+    fails = {}      # (fam, form) -> list of witnesses (CT: the four substituent-count families share the form key)
+    classes = {}    # fam -> cls -> {str: text}
     for text, fam, form, cls, o, a, b, err in res:
         nontrivial = ('@' in text or '/' in text or '\\' in text)
         run.case(1, key=('spelling', text) if nontrivial else None,
                  sample={'contract': 'spelling', 'text': text, 'chython': o, 'rdkit': a} if fam in ('T3', 'CT22') else None)
         if err is not None:
-            fails.setdefault((fam, form), []).append({'text': text, 'error': err})
+            fails.setdefault((fam[:2] if fam.startswith('CT') else fam, form), []).append({'text': text, 'error': err})
             continue
         if a is None:
             raise RuntimeError(f'generator produced a text RDKit rejects: {text}')  # checker bug, not a violation
         if a != b:
-            fails.setdefault((fam, form), []).append({'text': text, 'chython_str': o, 'rdkit(text)': a, 'rdkit(chython_str)': b})
-        if fam != 'DIENE':
-            classes.setdefault(fam, {}).setdefault(cls, {}).setdefault(o, text)
+            fails.setdefault((fam[:2] if fam.startswith('CT') else fam, form), []).append(
+                {'text': text, 'chython_str': o, 'rdkit(text)': a, 'rdkit(chython_str)': b})
+        elif fam != 'DIENE':
+            # explicit-H spellings are another graph (the H is an atom): their own family
+            classes.setdefault(fam + ('+[H]' if '[H]' in text else ''), {}).setdefault(cls, {}).setdefault(o, text)
     for (fam, form), w in sorted(fails.items()):
         run.violation(f'spelling:{fam}:{form}', f'{len(w)} spelling(s) of form "{form}" are read/re-written by chython as a different '
                       f'configuration than RDKit derives from the same text, e.g. {w[0]}', witness={'count': len(w), 'texts': w[:12]},
                       native=w[0])
-    # template-derived configuration classes: one canonical string per class, classes disjoint (independent of RDKit)
-    bad_forms = {k for k in fails}
+    # template-derived configuration classes (independent of RDKit; texts already reported above are left out):
+    # one canonical string per class, classes disjoint
     for fam, cl in sorted(classes.items()):
         allstr = {}
         for cls, strs in cl.items():
@@ -229,7 +231,7 @@ def part1(run):
                                                                               'texts': [cl[c][o] for c in cs]})
         for cls, strs in cl.items():
             run.case(1, key=('class', fam, str(cls)))
-            if len(strs) > 1 and not any(f == fam for f, _ in bad_forms):   # already reported per form above
+            if len(strs) > 1:
                 run.violation(f'class-split:{fam}:{cls}', f'spellings of ONE configuration class of family {fam} give {len(strs)} canonical '
                               f'strings', witness={'strings': dict(list(strs.items())[:6])})
 
@@ -243,10 +245,10 @@ def nonstereogenic_texts():
                 out += [f'{X}[C{k}]({X})({Y}){Z}', f'{Y}[C{k}]({X})({Z}){X}', f'[C{k}]({X})({X})({Y}){Z}', f'{X}[C{k}H]({X}){Y}',
                         f'[C{k}H]({X})({Y}){X}', f'{Y}[C{k}H]({X}){X}', f'{Y}[C{k}]({X})({X}){X}', f'[C{k}H]1({Y})CCCCC1',
                         f'{Y}[C{k}]1({Z})CCCCC1', f'{Y}[C{k}]1({Z})CCC1', f'{Y}C({Z})=[C{k}]=C({X}){X}', f'{X}C({X})=[C{k}]=C({Y}){Z}',
-                        f'{Y}C=[C{k}]=C', f'[C{k}H2]({X}){Y}', f'{Y}[C{k}H2]{Z}', f'{X}[C{k}]({Y})=O', f'{X}[C{k}H]={Y}'.replace('=Br', '=N').replace('=I', '=N')]
+                        f'{Y}C=[C{k}]=C', f'[C{k}H2]({X}){Y}', f'{Y}[C{k}H2]{Z}', f'{X}[C{k}]({Y})=O', f'{X}[C{k}H]=N']
             for a, b in itertools.product('/\\', repeat=2):
                 out += [f'{Y}{a}C=C({b}{X}){X}', f'{Y}{a}C({Z})=C({b}{X}){X}', f'{X}{a}C({X})=C{b}{Y}', f'C({a}{X})({X})=C{b}{Y}', f'{Y}{a}C=C',
-                        f'{Y}{a}C=C1{b}CCCCC1', f'{Y}{a}C=C=C({b}{X}){X}'[:0] or f'{Y}{a}C=C=C=C({b}{X}){X}', f'{Y}{a}C#C{b}{Z}', f'{Y}{a}C{b}{Z}']
+                        f'{Y}{a}C=C1{b}CCCCC1', f'{Y}{a}C=C=C=C({b}{X}){X}', f'{Y}{a}C#C{b}{Z}', f'{Y}{a}C{b}{Z}']
     return sorted(set(out))
 
 
